@@ -1196,7 +1196,9 @@ impl TensorChain {
     /// # Errors
     /// Returns an error if the rollback fails.
     pub fn rollback(&self, workspace: &Arc<TransactionWorkspace>) -> Result<()> {
-        workspace.rollback(self.graph.store())?;
+        // Operations are buffered in the workspace until commit: nothing was
+        // written to the store, so nothing has to be restored.
+        workspace.discard()?;
         self.tx_manager.remove(workspace.id());
         Ok(())
     }
